@@ -63,7 +63,7 @@ def run_pipe(res, tier, prefix, configs, schedules):
     res.distinct = st.get('distinct_signatures', 0)
     res.samples = st.get('samples', [])[:8]
     res.extra = dict(configurations=configs, schedules_per_configuration=schedules, read_sessions=st.get('read_sessions', 0),
-                     write_sessions=st.get('write_sessions', 0), early_close_sessions=st.get('early_close_sessions', 0),
+                     write_sessions=st.get('write_sessions', 0), early_close_sessions=st.get('early_close_sessions', 0), write_sessions_to_full_device=st.get('write_sessions_to_full_device', 0),
                      scheduling_points=st.get('steps', 0), max_steps_in_a_session=st.get('max_steps', 0),
                      blocked_at=st.get('blocked_at', {}), session_kinds=st.get('kinds', {}),
                      violations_seen_for_other_properties=other)
